@@ -36,3 +36,8 @@ def check(ctx):
         c03.comparator(ctx, "C01.35")
     with ctx.only(lambda k: k.startswith("keep-first/")):
         G.keep_first_or_error(ctx, "C01.35")
+    # substitutes are among the settings the property quantifies over: a substituted reference carries the arguments of the registry type at the
+    # positions the rule's source generics name (C07's mapping instances, evaluated here under C01's own id)
+    from . import c07 as _c07
+    with ctx.only(lambda k: k.startswith("mapping/")):
+        _c07.check(ctx)
